@@ -41,6 +41,63 @@ func checkC02(c *Ctx) {
 	c.Rule("R2.6", "number formatting: strconv base 10 / shortest 'f' on every path; NaN/±Inf arms agree with their literals", 4)
 	c.Rule("R2.7", "error expansion: message, Causes, Verbose-if-different; nil causes skipped", 4)
 	c.Rule("R2.8", "reflection fallback: HTML escaping off, null shortcut, reset before / trim after", 3)
+	c.Rule("R2.16", "one representation per kind of value: error elements go through the error field's own routine; Config.InitialFields go through zap.Any", 2)
+	cDelegatesOnly(c, "R2.16", c.Method(ZapPath, "errArrayElem", "MarshalLogObject"), "error-element-through-error-field",
+		"an element of zap.Errors is written by the error field itself (zap.Error(e).AddTo / zapcore's encodeError): message, causes of error groups, verbose form and the nil-pointer/panic containment cannot drift apart from what zap.Error emits",
+		func(cl *ssa.Call, st *ConcState) bool {
+			if IsCallTo(cl, CorePath+".encodeError") {
+				return true
+			}
+			if !IsCallTo(cl, "(go.uber.org/zap/zapcore.Field).AddTo") {
+				return false
+			}
+			v := Args(cl)[0]
+			for k := 0; k < 12; k++ {
+				if call, ok := v.(*ssa.Call); ok {
+					return IsCallTo(call, ZapPath+".Error", ZapPath+".NamedError")
+				}
+				if u, ok := v.(*ssa.UnOp); ok {
+					if al, ok := u.X.(*ssa.Alloc); ok {
+						if sv := singleStoreLoose(al); sv != nil {
+							v = sv
+							continue
+						}
+					}
+				}
+				nx := st.Step(v)
+				if nx == nil {
+					return false
+				}
+				v = nx
+			}
+			return false
+		})
+	if bo := c.Method(ZapPath, "Config", "buildOptions"); c.Anchor("R2.16", "zap.Config.buildOptions", bo != nil) {
+		// every Field that buildOptions (with its helpers) constructs is made by zap.Any
+		var other []string
+		nAny := 0
+		field := c.fieldNamed()
+		for _, f := range Region(bo) {
+			for _, g := range WithClosures(f) {
+				for _, cl := range Calls(g) {
+					call, ok := cl.(*ssa.Call)
+					if !ok || field == nil {
+						continue
+					}
+					n, _ := types.Unalias(call.Type()).(*types.Named)
+					if n == nil || n.Obj() != field.Obj() {
+						continue
+					}
+					if IsCallTo(call, ZapPath+".Any") {
+						nAny++
+					} else if h := helperOf(call); h == nil {
+						other = append(other, FuncName(CalleeFunc(call)))
+					}
+				}
+			}
+		}
+		c.Check(nAny >= 1 && len(other) == 0, "R2.16", bo.String(), "initial-fields-through-any", bo.Pos(), "Config.InitialFields become fields through zap.Any, so a value set in code (a Duration, a Time, an error, a marshaler) gets the representation its typed constructor gives it (other constructors used: %v)", other)
+	}
 	c.Rule("R2.15", "built-in numeric time/duration encoders emit the nanosecond count or its quotient by a constant with a single rounding", 4)
 	c2NumericEncoders(c, "R2.15")
 	c.Rule("R2.14", "short caller representation: everything after the penultimate '/', the whole path with fewer than two separators", 1)
